@@ -69,7 +69,30 @@ func (a *actor) sendWrite(p *Peer, sf *LFeat, cf *PFeat, fn PFunc, desc string) 
 	info := fnByName[fn.Fn]
 	data := w.GenData(info)
 	cmd := model.CmdType{}
-	cmd.SetDataForFunction(fn.Fn, data)
+	SetCmdData(&cmd, fn.Fn, data)
+	// the optional function element of the cmd: absent, naming the function of the data element,
+	// or naming another function of the same feature (what is written, and hence what has to be
+	// writable, is the function of the data element the cmd carries)
+	switch w.T.Choose(6, "function-element") {
+	case 0, 1:
+		cmd.Function = util.Ptr(fn.Fn)
+	case 2:
+		var others []PFunc
+		for _, o := range sf.Funcs {
+			if o.Fn != fn.Fn {
+				others = append(others, o)
+			}
+		}
+		if len(others) > 0 {
+			o := others[w.T.Choose(len(others), "other-function")]
+			cmd.Function = util.Ptr(o.Fn)
+			desc += "+function-element-names-another-function"
+			w.Probe("write-function-element-names-another-function")
+			if o.W != fn.W {
+				w.Probe("write-function-element-names-function-of-other-writability")
+			}
+		}
+	}
 	ack := w.T.Bool(1, 2, "ack")
 	var ackp *bool
 	if ack {
